@@ -29,6 +29,9 @@ struct Th {
   uint64_t prio;
   uint64_t fcount[FK];
   uint64_t created_step;
+  uintptr_t last_addr;         // address of the pending operation (set by pre)
+  uintptr_t recent[64];        // recently read locations: a spin loop re-reads few locations, a scan does not
+  int recent_pos;
 };
 struct Dev { int32_t tid; int32_t next; uint64_t dp; };
 struct FaultRec { int32_t tid; int32_t kind; uint64_t n; int64_t param; };
